@@ -90,7 +90,7 @@ func (vm *VM) compile(ctx context.Context, text *text, s string, args ...interfa
 
 	for p.More() {
 		p.Vars = p.Vars[:]
-		t, err := p.Term()
+		t, err := p.readTerm()
 		if err != nil {
 			return err
 		}
@@ -131,7 +131,7 @@ func (vm *VM) compile(ctx context.Context, text *text, s string, args ...interfa
 			text.buf = append(text.buf, cs...)
 		}
 	}
-	return nil
+	return p.unusedArgs()
 }
 
 func (vm *VM) directive(ctx context.Context, text *text, d Term) error {
